@@ -5,6 +5,7 @@ import GoSquare.Properties.C08
 import GoSquare.Properties.C10
 import GoSquare.Properties.C13
 import GoSquare.Properties.C15
+import GoSquare.Properties.C16
 import GoSquare.Properties.C18
 import GoSquare.Properties.C20
 #print axioms GoSquare.C05.aligned_block_is_row_inner_node
@@ -43,6 +44,14 @@ import GoSquare.Properties.C20
 #print axioms GoSquare.C15.subTreeWidth_pos
 #print axioms GoSquare.C15.mmr_spec
 #print axioms GoSquare.ceilSqrtF64_exact
+#print axioms GoSquare.C16.parseTxs_total
+#print axioms GoSquare.C16.parseBlobs_total
+#print axioms GoSquare.C16.parseShares_total
+#print axioms GoSquare.C16.sequenceRawData_total
+#print axioms GoSquare.C16.wrappedPFBs_total
+#print axioms GoSquare.C16.deconstruct_total
+#print axioms GoSquare.C16.parseDelimiter_spec
+#print axioms GoSquare.C16.getShareRange_bounds
 #print axioms GoSquare.C18.compare_spec
 #print axioms GoSquare.C18.compare_total_order
 #print axioms GoSquare.C18.predicates_spec
